@@ -368,22 +368,36 @@ def check(ctx, case):
                 flat = mod.reshape((-1,) + gp)
                 ctx.expect(np.all(flat[:, zero] == 0.0), "ctf-zero-where-closed", where="reference", cut=cuts[0])
 
+            # observation only: the Wiener-filtered CTF is outside the quantifier of C23
+            if ap_kernel is not None and not isinstance(case["cutoff"], dict) and case["pt_seed"] % 8 == 0:
+                try:
+                    wk = np.abs(_np(transfer.CTF(semiangle_cutoff=cut_obj, soft=soft, aberration_coefficients=coeffs,
+                                                 wiener_snr=2.0, **grid)._evaluate_kernel()).astype(np.complex128))
+                    over = bool(np.nanmax(wk - ap_kernel.astype(np.float64)) > 1e-3) or bool(np.isnan(wk).any())
+                    ctx.note("wiener-ctf-exceeds-aperture" if over else "wiener-ctf-within-aperture")
+                except Exception:
+                    ctx.note("wiener-ctf-raises")
+
             # -------------------------------------------------------- G. real pipeline
             if case["pipeline"] and ap_kernel is not None:
                 cdt = np.complex64 if f32 else np.complex128
                 arr = np.zeros(tuple(case["gpts"]), dtype=cdt)
                 arr[0, 0] = 1.0
                 waves = abtem.Waves(arr, energy=case["energy"], sampling=tuple(case["sampling"]))
-                out = _np(waves.apply_ctf(transfer.CTF(semiangle_cutoff=cut_obj, soft=soft, focal_spread=fs_obj,
-                                                       angular_spread=as_obj, aberration_coefficients=ab_args,
-                                                       flip_phase=case["flip_phase"])).array)
-                got = np.abs(np.fft.fft2(out.astype(np.complex128)))
-                ptol = 1e-10 if not f32 else 2e-5
-                apb = ap_kernel.astype(np.float64)
-                if ctx.expect(got.shape[-apb.ndim:] == apb.shape, "pipeline-le-aperture", what="shape", got=list(got.shape)):
-                    ctx.expect(float((got - apb).max()) <= ptol, "pipeline-le-aperture", excess=float((got - apb).max()))
-                out2 = _np(waves.apply_transform(transfer.Aperture(cut_obj, soft=soft)).array)
-                got2 = np.fft.fft2(out2.astype(np.complex128))
-                ctx.close(got2, apb.reshape(got2.shape), "pipeline-le-aperture", rtol=0, atol=ptol, scale=1.0, what="aperture alone")
-                ctx.monitor("pipeline-runs")
+                try:
+                    out = _np(waves.apply_ctf(transfer.CTF(semiangle_cutoff=cut_obj, soft=soft, focal_spread=fs_obj,
+                                                           angular_spread=as_obj, aberration_coefficients=ab_args,
+                                                           flip_phase=case["flip_phase"])).array)
+                    got = np.abs(np.fft.fft2(out.astype(np.complex128)))
+                    ptol = 1e-10 if not f32 else 2e-5
+                    apb = ap_kernel.astype(np.float64)
+                    if ctx.expect(got.shape[-apb.ndim:] == apb.shape, "pipeline-le-aperture", what="shape", got=list(got.shape)):
+                        ctx.expect(float((got - apb).max()) <= ptol, "pipeline-le-aperture", excess=float((got - apb).max()))
+                    out2 = _np(waves.apply_transform(transfer.Aperture(cut_obj, soft=soft)).array)
+                    got2 = np.fft.fft2(out2.astype(np.complex128))
+                    ctx.close(got2, apb.reshape(got2.shape), "pipeline-le-aperture", rtol=0, atol=ptol, scale=1.0, what="aperture alone")
+                    ctx.monitor("pipeline-runs")
+                except (ValueError, RuntimeError) as e:
+                    ctx.expect(False, "ensemble-evaluates", what="apply_ctf / apply_transform pipeline", soft=soft,
+                               cutoff=case["cutoff"], error=repr(e)[:200])
     ctx.nontrivial(nontrivial)
